@@ -3,6 +3,7 @@ import GoawkModel.C20
 import GoawkModel.C20Quote
 import GoawkModel.Drv.C04
 import GoawkModel.C20Stmt
+import GoawkModel.C20Simple
 /-! Line-protocol handler for property C20 (request already split into words, without the leading `c20`):
 
   `show <pc> tok*`  → `ok tok*` : parse the tokens with the C04 model parser (the last token is the terminator and must be
@@ -18,14 +19,18 @@ def stokWord : STok → String
   | .kIf => "if" | .kElse => "else" | .kWhile => "while" | .kDo => "do" | .kFor => "for"
   | .lbrace => "{" | .rbrace => "}" | .lparen => "(" | .rparen => ")" | .semi => ";" | .nl => "nl"
   | .expr c => s!"e{c}" | .simple k => s!"s{k}" | .forin k => s!"in{k}" | .eof => "eof"
+  | .kBegin => "BEGIN" | .kEnd => "END" | .kFunction => "function" | .comma => "," | .fname k => s!"fn{k}" | .param k => s!"p{k}"
 
 open GoawkModel.C20Stmt in
 def wordSTok (w : String) : Option STok :=
   match w with
   | "if" => some .kIf | "else" => some .kElse | "while" => some .kWhile | "do" => some .kDo | "for" => some .kFor
   | "{" => some .lbrace | "}" => some .rbrace | "(" => some .lparen | ")" => some .rparen | ";" => some .semi | "nl" => some .nl
+  | "BEGIN" => some .kBegin | "END" => some .kEnd | "function" => some .kFunction | "," => some .comma
   | _ =>
-    if w.startsWith "in" then ((w.drop 2).toString.toNat?).map STok.forin
+    if w.startsWith "fn" then ((w.drop 2).toString.toNat?).map STok.fname
+    else if w.startsWith "p" then ((w.drop 1).toString.toNat?).map STok.param
+    else if w.startsWith "in" then ((w.drop 2).toString.toNat?).map STok.forin
     else if w.startsWith "e" then ((w.drop 1).toString.toNat?).map STok.expr
     else if w.startsWith "s" then ((w.drop 1).toString.toNat?).map STok.simple
     else none
@@ -58,6 +63,70 @@ def handleStmt (cmd : String) (ws : List String) : String :=
       if cmd == "stmt" then s!"ok {rest.length} " ++ showSTree s
       else "ok " ++ String.intercalate " " ((showS s).map stokWord)
 
+/-! simple statements: `simple tok*` → `ok <#left> <tree>` | `err …`; `showsimple tok*` → `ok tok*`.
+Token words: the C04 expression token words plus `print printf delete exit return next nextfile break continue`. -/
+open GoawkModel.C20Simple in
+def wordPTok (w : String) : Option PTok :=
+  match w with
+  | "print" => some .kPrint | "printf" => some .kPrintf | "delete" => some .kDelete | "exit" => some .kExit
+  | "return" => some .kReturn | "next" => some .kNext | "nextfile" => some .kNextfile | "break" => some .kBreak
+  | "continue" => some .kContinue
+  | _ => (Drv.C04.wordTok w).map PTok.t
+
+open GoawkModel.C20Simple in
+def ptokWord : PTok → String
+  | .t x => Drv.C04.tokWord x
+  | .kPrint => "print" | .kPrintf => "printf" | .kDelete => "delete" | .kExit => "exit" | .kReturn => "return"
+  | .kNext => "next" | .kNextfile => "nextfile" | .kBreak => "break" | .kContinue => "continue"
+
+def showOptTree : Option Expr → String
+  | some e => Drv.C04.showTree e
+  | none => "nil"
+
+open GoawkModel.C20Simple in
+def showSimpleTree : Simple → String
+  | .print f args redir =>
+    "(" ++ (if f then "printf" else "print") ++ " [" ++ String.intercalate " " (args.map Drv.C04.showTree) ++ "] " ++
+      (match redir with
+       | none => "- nil"
+       | some (t, d) => Drv.C04.tokWord t ++ " " ++ Drv.C04.showTree d) ++ ")"
+  | .delete a idx => s!"(delete v{a} " ++ showOptTree idx ++ ")"
+  | .exit e => "(exit " ++ showOptTree e ++ ")"
+  | .ret e => "(return " ++ showOptTree e ++ ")"
+  | .next => "(next)" | .nextfile => "(nextfile)" | .brk => "(break)" | .cont => "(continue)"
+  | .exprS e => "(expr " ++ Drv.C04.showTree e ++ ")"
+
+open GoawkModel.C20Simple in
+def handleSimple (cmd : String) (ws : List String) : String :=
+  match ws.mapM wordPTok with
+  | none => "bad-token"
+  | some ts =>
+    match parseSimple ts with
+    | .error x => Drv.C04.errWord x
+    | .ok (s, rest) =>
+      if cmd == "simple" then s!"ok {rest.length} " ++ showSimpleTree s
+      else "ok " ++ String.intercalate " " ((showSimple s).map ptokWord)
+
+open GoawkModel.C20Stmt in
+def showItemTree : Item → String
+  | .begin b => "(begin " ++ showSTree b ++ ")"
+  | .end_ b => "(end " ++ showSTree b ++ ")"
+  | .func k ps b => s!"(func {k} [" ++ String.intercalate " " (ps.map toString) ++ "] " ++ showSTree b ++ ")"
+  | .action pats body => "(action [" ++ String.intercalate " " (pats.map toString) ++ "] " ++
+      (match body with | some b => showSTree b | none => "nil") ++ ")"
+
+open GoawkModel.C20Stmt in
+/-- `prog tok*` → `ok item*` | `reject`; `showprog tok*` → `ok tok*` -/
+def handleProg (cmd : String) (ws : List String) : String :=
+  match ws.mapM wordSTok with
+  | none => "bad-token"
+  | some ts =>
+    match parseProg ts with
+    | none => "reject"
+    | some is =>
+      if cmd == "prog" then "ok " ++ String.intercalate " " (is.map showItemTree)
+      else "ok " ++ String.intercalate " " ((showProg is).map stokWord)
+
 def handle (args : List String) : String :=
   match args with
   | "show" :: pcw :: ws =>
@@ -67,6 +136,10 @@ def handle (args : List String) : String :=
       match parseExpr (pcw == "1") ts with
       | .error x => Drv.C04.errWord x
       | .ok (e, rest) => if rest.length == 1 then "ok " ++ Drv.C04.showToks (showE e) else "err rest"
+  | "simple" :: ws => handleSimple "simple" ws
+  | "showsimple" :: ws => handleSimple "showsimple" ws
+  | "prog" :: ws => handleProg "prog" ws
+  | "showprog" :: ws => handleProg "showprog" ws
   | "stmt" :: ws => handleStmt "stmt" ws
   | "showstmt" :: ws => handleStmt "showstmt" ws
   | _ =>
